@@ -57,7 +57,7 @@ Theorem C05_lock_mutex : forall progs st tmo att evs i j x y lk d d',
 Proof. exact tx_lock_mutex. Qed.
 Print Assumptions C05_lock_mutex.
 
-(* (c) locked / serializable, every block in that mode, the counter k written by increments inside blocks only, nobody
+(* (c) locked / serializable, every block in that mode, the counter k written inside blocks only, by increments (and expire calls, which write back the value read under the lock), nobody
    inside a block beyond the timeout: the counter equals its initial value plus the increments of the committed blocks *)
 Theorem C05_no_lost_incr : forall m k progs st tmo att evs, m <> Fast -> wf_progs m k progs ->
   safe (init progs st tmo att) evs ->
@@ -84,9 +84,24 @@ Example C05_example :
   let cf := run_from (init [[ex_blk Fast 1]; [ex_blk Fast 2]] (fun _ => None) 11 6) ex_evs in
   (store cl 0%nat, committed 0 (wlog cl), store cf 0%nat, committed 0 (wlog cf)) = (Some 3, 3, Some 2, 3).
 Proof. vm_compute. reflexivity. Qed.
+(* a counter that is also re-timed (expire) inside the blocks: the value read under the lock is written back unchanged *)
+Definition ex_tblk m d := Txn {| bmode := m; bcmds := [Touch 0; Incr 0 d]; braise := false |}.
+Definition ex_tevs := ([Run 0 0; Run 1 0; Run 0 0; Run 1 0; Run 0 0; Run 1 0] ++ repeat (Run 0 0) 10 ++ [Tick 2] ++ repeat (Run 1 0) 12)%nat.
+Example C05_example_touch :
+  let cl := run_from (init [[ex_tblk Locked 1]; [ex_tblk Locked 2]] (fun k => if Nat.eqb k 0 then Some 5 else None) 11 6) ex_tevs in
+  (store cl 0%nat, committed 0 (wlog cl), map (fun i => outs (tasks cl i)) [0; 1]%nat) = (Some 8, 3, [[Ok [None; Some 6]]; [Ok [None; Some 8]]]) /\
+  wf_progs Locked 0 [[ex_tblk Locked 1]; [ex_tblk Locked 2]].
+Proof.
+  split; [vm_compute; reflexivity|].
+  assert (W : forall d, wf_item Locked 0 (ex_tblk Locked d)).
+  { intro d. split; [reflexivity|]. constructor; [intros _ _; right; reflexivity|]. constructor; [intros _ _; left; eexists; reflexivity|constructor]. }
+  repeat (constructor; try apply W).
+Qed.
 Example C05_example_safe : safe (init [[ex_blk Locked 1]; [ex_blk Locked 2]] (fun _ => None) 11 6) ex_evs /\ wf_progs Locked 0 [[ex_blk Locked 1]; [ex_blk Locked 2]].
 Proof.
   split.
   - cbn [safe ex_evs]. repeat (split; [intros i x lk d Hc Hin; revert Hc; (destruct i as [|[|i]]; vm_compute; intro Hc; [| |discriminate]; try discriminate; injection Hc as <-; vm_compute in Hin; repeat (destruct Hin as [Hin|Hin]; [injection Hin as <- <-; vm_compute; reflexivity|]); try destruct Hin)|]). exact I.
-  - repeat constructor; cbn; try discriminate; intros _ _; eexists; reflexivity.
+  - assert (W : forall d, wf_item Locked 0 (ex_blk Locked d)).
+    { intro d. split; [reflexivity|]. constructor; [intros _ _; left; eexists; reflexivity|constructor]. }
+    repeat (constructor; try apply W).
 Qed.
